@@ -2,7 +2,6 @@ package main
 
 import (
 	"fmt"
-	"go/token"
 	"go/types"
 	"strings"
 
@@ -176,49 +175,50 @@ func selectCaseLeavesLoop(sel *ssa.Select, si int, l *Loop) bool {
 }
 
 func resultFalseLeavesLoop(call *ssa.Call, l *Loop) bool {
-	// the tested value is the call's result: directly, negated, or carried to the loop's own test through a loop
-	// variable (`for changed := true; changed; { …; changed = conn.WaitForStateChange(ctx, s) }`)
-	isResult := func(v ssa.Value) bool {
-		if v == ssa.Value(call) {
+	// every way round the loop from the call back to the call passes a test that found the result true: either the back
+	// edge itself implies it (`if !conn.Wait…(ctx, s) { break }`), or the result is carried to the loop's own test through a
+	// loop variable (`for changed := true; changed; { …; changed = conn.Wait…(ctx, s) }`) and the call is reached only
+	// when that variable is true
+	cs := newCondSpace(call.Parent(), nil)
+	if cs.err != "" {
+		return false
+	}
+	back := cs.False()
+	for _, lt := range l.Latch {
+		for bi, sb := range lt.Succs {
+			if sb == l.Header {
+				back = or(back, cs.EdgeCond(lt, bi))
+			}
+		}
+	}
+	if res, ok := cs.EvalValue(call); ok {
+		if imp, _ := cs.Implies(and(back, cs.Reach(call)), res); imp && cs.Satisfiable(and(back, cs.Reach(call))) {
 			return true
 		}
-		ph, ok := v.(*ssa.Phi)
-		if !ok || ph.Block() != l.Header {
-			return false
+	}
+	for _, in := range l.Header.Instrs {
+		ph, ok := in.(*ssa.Phi)
+		if !ok {
+			continue
 		}
-		n := 0
+		n, carried := 0, true
 		for i, e := range ph.Edges {
 			if !l.Blocks[l.Header.Preds[i]] {
 				continue // the value the loop is entered with
 			}
 			if e != ssa.Value(call) {
-				return false
+				carried = false
 			}
 			n++
 		}
-		return n > 0
-	}
-	for b := range l.Blocks {
-		iff, ok := b.Instrs[len(b.Instrs)-1].(*ssa.If)
-		if !ok {
+		if !carried || n == 0 {
 			continue
 		}
-		cond, neg := iff.Cond, false
-		for {
-			u, isU := cond.(*ssa.UnOp)
-			if !isU || u.Op != token.NOT {
-				break
+		if pv, ok := cs.EvalValue(ph); ok {
+			if imp, _ := cs.Implies(cs.Reach(call), pv); imp {
+				return true
 			}
-			cond, neg = u.X, !neg
 		}
-		if !isResult(cond) {
-			continue
-		}
-		falseSucc := b.Succs[1]
-		if neg {
-			falseSucc = b.Succs[0]
-		}
-		return !reachesLoop(falseSucc, l)
 	}
 	return false
 }
